@@ -169,6 +169,9 @@ struct World {
     virtual void gen_cfg(Rng &r, const std::string &prop, const std::string &mode, Cfg &c) = 0;
     virtual Op gen_op(Rng &r, const std::string &prop, const std::string &mode, GenState &g) = 0;
     virtual bool is_mutation(const Op &op) const = 0;
+    // The call has no channel (or an ambiguous one: void, a count, a value that is also the failure value) to say whether it
+    // completed or gave up under an allocation failure: the verdict then goes by the contents (completed XOR unchanged).
+    virtual bool result_is_ambiguous(const Op &) const { return false; }
     virtual bool allocates(const Op &) const { return true; }
     // ---- execution
     virtual void init(const Cfg &c) { cfg = c; }         // derive universe etc. (deterministic from cfg)
